@@ -48,6 +48,7 @@ class Out:
     exc: Exc | None = None
     pend: tuple | None = None  # pending outcome carried through an inlined context manager
     trace: tuple = ()
+    value: str = ''  # 'T' / 'F' when a `return True` / `return False` produced this outcome (used for inlined helper tests)
 
 
 class Semantics:
@@ -321,7 +322,8 @@ class Executor:
             return self._then(outs, lambda st, pd: {Out('next', self.sem.after_stmt(self, fn, s, st), None, pd)})
         if isinstance(s, ast.Return):
             outs = self.eval(ctx, s.value, state, pend)
-            return self._then(outs, lambda st, pd: {Out('return', st, None, pd)})
+            val = ('T' if s.value.value else 'F') if isinstance(s.value, ast.Constant) and isinstance(s.value.value, bool) else ''
+            return self._then(outs, lambda st, pd: {Out('return', st, None, pd, (), val)})
         if isinstance(s, ast.Raise):
             if s.exc is None:
                 tok = ctx.handling or Exc('builtins.RuntimeError')
@@ -376,11 +378,71 @@ class Executor:
                 res.add(Out('next', o.state, None, (o.kind,)))
         return res
 
+    def _sem_test(self, fn, test, state):
+        """sem.test with `not` stripped: the hook sees the positive test, the verdict lists are swapped"""
+        neg = False
+        while isinstance(test, ast.UnaryOp) and isinstance(test.op, ast.Not):
+            neg = not neg
+            test = test.operand
+        t, f = self.sem.test(self, fn, test, state)
+        return (f, t) if neg else (t, f)
+
+    def _helper_test(self, ctx, test, state, pend):
+        """TEST is `helper(...)` or `not helper(...)` for an inlined helper: (outcomes that are not a plain continuation,
+        states on which the test is true, states on which it is false) using the constants the helper returns; None otherwise"""
+        neg = False
+        e = test
+        while isinstance(e, ast.UnaryOp) and isinstance(e.op, ast.Not):
+            neg = not neg
+            e = e.operand
+        if not isinstance(e, ast.Call):
+            return None
+        helper = self._helper(ctx, e)
+        if helper is None:
+            return None
+        other: set[Out] = set()
+        cur = {state}
+        for arg in [*e.args, *[k.value for k in e.keywords]]:
+            nxt = set()
+            for st in cur:
+                for o in self.eval(ctx, arg, st, pend):
+                    if o.kind == 'next':
+                        nxt.add(o.state)
+                    else:
+                        other.add(o)
+            cur = nxt
+        tr: set = set()
+        fa: set = set()
+        for st in cur:
+            for o in self.run(helper, st, depth=ctx.depth + 1):
+                if o.kind == 'return':
+                    v = o.value
+                    if neg and v:
+                        v = 'F' if v == 'T' else 'T'
+                    if v in ('T', ''):
+                        tr.add(o.state)
+                    if v in ('F', ''):
+                        fa.add(o.state)
+                elif o.kind == 'raise':
+                    other.add(Out('raise', o.state, o.exc, pend))
+                else:
+                    raise Unsupported(f'{helper.loc}: {o.kind} out of an inlined helper')
+        return other, tr, fa
+
     def _if(self, ctx, s: ast.If, state, pend) -> set[Out]:
+        ht = self._helper_test(ctx, s.test, state, pend)
+        if ht is not None:
+            other, tr, fa = ht
+            res = set(other)
+            if tr:
+                res |= self.block(ctx, s.body, {(x, pend) for x in tr})
+            if fa:
+                res |= self.block(ctx, s.orelse, {(x, pend) for x in fa})
+            return res
         outs = self.eval(ctx, s.test, state, pend)
 
         def k(st, pd):
-            t, f = self.sem.test(self, ctx.fn, s.test, st)
+            t, f = self._sem_test(ctx.fn, s.test, st)
             res = set()
             if t:
                 res |= self.block(ctx, s.body, {(x, pd) for x in t})
@@ -414,14 +476,21 @@ class Executor:
                 raise Unsupported(f'{ctx.fn.module.relpath}:{s.lineno}: abstract state does not stabilise in loop '
                                   f'(more than {self.MAX_LOOP_STATES} head states)')
             st, pd = conf
-            if test is not None:
+            ht = self._helper_test(ctx, test, st, pd) if test is not None else None
+            if ht is not None:
+                other, tr, fa = ht
+                res |= other
+                entered = {(x, pd) for x in tr}
+                if not infinite:
+                    exits |= {(x, pd) for x in fa}
+            elif test is not None:
                 touts = self.eval(ctx, test, st, pd)
                 entered: set[tuple[Any, Any]] = set()
                 for o in touts:
                     if o.kind != 'next':
                         res.add(o)
                         continue
-                    t, f = self.sem.test(self, ctx.fn, test, o.state)
+                    t, f = self._sem_test(ctx.fn, test, o.state)
                     for x in t:
                         entered.add((x, o.pend))
                     if not infinite:
@@ -553,6 +622,33 @@ class Executor:
                         res.add(Out('raise', o.state, o.exc, hole_pend))
                     else:
                         raise Unsupported(f'{target.loc}: {o.kind} out of context manager')
+                return res
+            if fname.split('.')[-1] == 'ExitStack' and isinstance(item.optional_vars, ast.Name):
+                # with ExitStack() as st: ... st.callback(f) ...   - the registered callbacks run, last first, on every exit
+                stname = item.optional_vars.id
+                cbs: list[ast.expr] = []
+                for stmt_ in s.body:
+                    for n in ast.walk(stmt_) if isinstance(stmt_, ast.Expr) else []:
+                        if isinstance(n, ast.Call) and isinstance(n.func, ast.Attribute) and n.func.attr == 'callback' \
+                                and isinstance(n.func.value, ast.Name) and n.func.value.id == stname and n.args:
+                            cb = n.args[0]
+                            cbs.append(cb.body if isinstance(cb, ast.Lambda) else ast.copy_location(ast.Call(func=cb, args=list(n.args[1:]), keywords=[]), n))
+                res = set()
+                for o in inner(state, pend):
+                    confs = {(o.state, None)}
+                    failed: set[Out] = set()
+                    for cb in reversed(cbs):
+                        nxt = set()
+                        for st_, _pd in confs:
+                            for o2 in self.eval(ctx, cb, st_, None):
+                                if o2.kind == 'next':
+                                    nxt.add((o2.state, None))
+                                else:
+                                    failed.add(Out(o2.kind, o2.state, o2.exc, o.pend))
+                        confs = nxt
+                    res |= failed
+                    for st_, _pd in confs:
+                        res.add(Out(o.kind, st_, o.exc, o.pend, o.trace, o.value))
                 return res
         # generic context manager: evaluate the expression, no suppression
         outs = self.eval(ctx, ce, state, pend)
